@@ -55,6 +55,46 @@ CLAIMED["C14"] = {
     "design": "DESIGN.md section 4 C14",
 }
 
+CELLS_NOTE = ("Trusted: Model/Cells.v mirrors the 31 execute() bodies by hand over exact rationals (cells = option Q, results in "
+              "lowest terms); IEEE rounding/overflow/NaN not modelled; numpy.ma.std enters as the oracle sigma; the model is tied "
+              "to the code by differential runs through Command.run on generated masked arrays with hostile hidden payloads "
+              "(tolerance 2^-36 relative) and by the exact reference evaluator of drivers/cells_common.py.")
+CLAIMED["C03"] = {
+    "text": "Rocq theorems about the cell model of all 31 data commands, which is by construction an instance of one "
+            "mask-respecting combinator: for every command, number of inputs, shape, element type and placement of missing cells, "
+            "a result cell is missing exactly when an input cell of its column is missing or the operation is undefined on the "
+            "column's values (C03_mask_law); missing cells are never resurrected; for the 25 everywhere-defined commands missing iff "
+            "an input cell is missing (C03_total, by a per-command definedness proof); division is undefined exactly on zero "
+            "divisors / zero weight sums; results are a function of the observable inputs only (C03_noninterference: payloads under "
+            "missing cells, whole-array statistics included). Tied by differential runs that vary the hidden payloads.",
+    "note": CELLS_NOTE + " Non-interference is structural in the model (cells carry no payload); it is the correspondence that "
+            "shows the code computes a function of the observation. CSV/NetCDF mask creation is checked under C17/C18.",
+    "technique": "Rocq proof (generic combinator theorems + per-command definedness) + differential correspondence with payload variation",
+    "design": "DESIGN.md section 4 C03",
+}
+CLAIMED["C04"] = {
+    "text": "Rocq theorem: for every command the code declares fuzzy-producing (live is_fuzzy flags regenerated into GenSigs; the "
+            "model's classification is proved equal to it), every input list and every parameter choice of any magnitude, all "
+            "non-missing result cells lie in [-1, 1] (C04, via: every column function of a fuzzy command ends in the clamp). Source "
+            "obligation regenerated from the AST on every run: every return of every fuzzy execute() is insure_fuzzy(_, -1, 1) and "
+            "insure_fuzzy is the two-sided in-place clamp (C04_clamp_on_every_return, vm_compute over the regenerated table).",
+    "note": CELLS_NOTE + " Floating-point overshoot of a clamp-free path cannot be expressed in exact arithmetic; the clamp-on-every-"
+            "return obligation is what guards it.",
+    "technique": "Rocq proof + regenerated source-fact obligation (AST) + differential correspondence with out-of-range parameters",
+    "design": "DESIGN.md section 4 C04",
+}
+CLAIMED["C05"] = {
+    "text": "Rocq theorems: every command returns the shape of its input and one cell per input cell (C05_shape); for every "
+            "permutation p of the n cell positions and every new shape, running the command on the commonly rearranged inputs "
+            "gives the same element type, the new shape and the identically rearranged cells (C05_rearrange, all 31 commands incl. "
+            "those using whole-array statistics: min/max/mean/means around the mean are proved symmetric under permutation; "
+            "C05_reshape is the identity-permutation case). Tied by differential runs on rank 1-3 arrays incl. length-1 axes, each "
+            "re-run permuted and reshaped.",
+    "note": CELLS_NOTE + " In the model cells are a flat list in C order; that numpy reshape/ravel preserve that order is assumed.",
+    "technique": "Rocq proof (permutation invariance of statistics, equivariance of the combinator) + differential correspondence incl. permuted re-runs",
+    "design": "DESIGN.md section 4 C05",
+}
+
 NOT_YET = "check not built yet (planned with the same technique, see DESIGN.md section 4); not claimed in this commit"
 
 
